@@ -25,11 +25,13 @@ pub struct Opts {
     pub services: bool,
     pub errors: bool,
     pub keywords: bool,
+    /// set items beyond the key-like ones: lists, maps and optionals (doubles among their leaves)
+    pub rich_set_items: bool,
 }
 
 impl Default for Opts {
     fn default() -> Self {
-        Opts { max_types: 8, services: true, errors: true, keywords: true }
+        Opts { max_types: 8, services: true, errors: true, keywords: true, rich_set_items: false }
     }
 }
 
@@ -41,6 +43,7 @@ struct G<'a> {
     plain_alias: Vec<bool>,
     opt_alias: Vec<bool>,
     coll_alias: Vec<bool>,
+    rich_set_items: bool,
 }
 
 fn tname(i: usize, pkg: &str) -> Value {
@@ -101,6 +104,18 @@ impl<'a> G<'a> {
             }
             5 if !no_opt => json!({"type": "optional", "optional": {"itemType": self.ty(depth - 1, true)}}),
             6 => json!({"type": "list", "list": {"itemType": self.ty(depth - 1, false)}}),
+            7 if self.rich_set_items && self.rng.chance(1, 3) => {
+                // any type may be a set item: a list, a map (its values are not keys), an optional
+                let leaf = |g: &mut G| if g.rng.chance(1, 2) { json!({"type": "primitive", "primitive": "DOUBLE"}) } else { g.key_ty() };
+                let item = match self.rng.below(5) {
+                    0 => json!({"type": "list", "list": {"itemType": leaf(self)}}),
+                    1 => { let k = self.key_ty(); let v = leaf(self); json!({"type": "map", "map": {"keyType": k, "valueType": v}}) }
+                    2 => json!({"type": "optional", "optional": {"itemType": leaf(self)}}),
+                    3 => { let k = self.key_ty(); let v = leaf(self); json!({"type": "map", "map": {"keyType": k, "valueType": {"type": "optional", "optional": {"itemType": v}}}}) }
+                    _ => { let k = self.key_ty(); let v = leaf(self); json!({"type": "list", "list": {"itemType": {"type": "map", "map": {"keyType": k, "valueType": v}}}}) }
+                };
+                json!({"type": "set", "set": {"itemType": item}})
+            }
             7 => json!({"type": "set", "set": {"itemType": self.key_ty()}}),
             8 => {
                 let k = self.key_ty();
@@ -160,7 +175,7 @@ pub fn random_ir(rng: &mut Rng, opts: &Opts) -> Value {
         kinds.push([Kind::Alias, Kind::Enum, Kind::Object, Kind::Object, Kind::Union][rng.below(5)].clone());
         pkgs.push(rng.below(PACKAGES.len()));
     }
-    let mut g = G { rng, kinds: kinds.clone(), pkgs: pkgs.clone(), plain_alias: vec![false; n], opt_alias: vec![false; n], coll_alias: vec![false; n] };
+    let mut g = G { rng, kinds: kinds.clone(), pkgs: pkgs.clone(), plain_alias: vec![false; n], opt_alias: vec![false; n], coll_alias: vec![false; n], rich_set_items: opts.rich_set_items };
     // decide alias targets first (aliases may point at aliases with a smaller index only, so chains terminate)
     let mut alias_ty: Vec<Option<Value>> = vec![None; n];
     for i in 0..n {
